@@ -135,6 +135,19 @@ def check(spec, ctx):
                     raise Violation("read_block:position-dependent", f"{ctxt}: read_block({start},{ns}) differs from whole[:, {start}:{start + ns}] (shape {b.data.shape})")
                 if start // nblk != (start + ns - 1) // nblk or start % nblk:
                     crossing = True
+        # ---- selection of a channel range by the label of its first channel
+        k = spec["chan"] % nchan
+        nsel = 1 + (spec["chan"] // 3) % (nchan - k)
+        for how, f in (("label32", float(np.float32(hdr.fch1 + k * hdr.foff))), ("exact", hdr.fch1 + k * hdr.foff)):
+            try:
+                sb = rd.read_block(0, N, fch1=f, nchans=nsel)
+            except Exception as exc:  # noqa: BLE001
+                raise Violation(f"read_block:select:raised:{type(exc).__name__}", f"{ctxt}: read_block(fch1={f!r} [{how} label of row {k}], nchans={nsel}): {exc!r}") from exc
+            if sb.data.shape != (nsel, N) or not np.array_equal(sb.data, W[k : k + nsel]):
+                raise Violation("read_block:select:rows", f"{ctxt}: requested rows {k}..{k + nsel - 1} by the {how} label {f!r}: got shape {sb.data.shape}, values differ from the whole read")
+            lab0 = sb.header.fch1
+            if abs(lab0 - freqs_desc[k]) > 0.02 * abs(spec["df"]) or sb.header.nchans != nsel:
+                raise Violation("read_block:select:label", f"{ctxt}: selected block labelled fch1={lab0!r}, nchans={sb.header.nchans}; row {k} is {freqs_desc[k]!r} MHz")
         # ---- read_plan
         flatW = np.ascontiguousarray(W.T).reshape(-1)
         for g in spec["gulps"]:
